@@ -26,3 +26,17 @@ Lemma fixed_ack_keeps_reason :
   mochi_encode pubrec_0x10 = Ok [80; 3; 0; 7; 16] /\
   (exists pk, mochi_decode_packet 5 [80; 3; 0; 7; 16] = Ok (pk, []) /\ pk_reason_code pk = 16).
 Proof. split; [vm_compute; reflexivity | eexists; split; [vm_compute; reflexivity | reflexivity]]. Qed.
+
+(* Second repaired defect (found while proving the re-encode statement): PingreqEncode/PingrespEncode
+   wrote the fixed header with whatever FixedHeader.Remaining the Packet carried.  The decoder accepts
+   a PINGREQ with a non-zero remaining length (c0 01 00: ReadPacket reads the byte and ignores it), so
+   re-encoding the decoded packet produced "c0 01" — a header announcing one more byte that is not
+   there.  Fixed in /repo by 46da5a3 (Remaining := 0). *)
+Definition ping_encode_prefix (pk : packet) : res bytes := fh_encode (pk_fh pk).
+
+Lemma prefix_ping_stale_length :
+  exists pk, (mochi_decode_packet 4 [192; 1; 0] = Ok (pk, [])) /\
+             (ping_encode_prefix pk = Ok [192; 1]) /\
+             (mochi_decode_packet 4 [192; 1] = Err EShortRead) /\
+             (mochi_encode pk = Ok [192; 0]).
+Proof. eexists. split; [vm_compute; reflexivity|]. repeat split; vm_compute; reflexivity. Qed.
